@@ -92,16 +92,22 @@ else:
 sh("git checkout -- . && git clean -fdq", cwd=wt)
 dst = os.path.join("/verif/seeded", name)
 os.makedirs(dst, exist_ok=True)
+# what earlier runs recorded about this seed - read BEFORE the seed's own files (its meta.json among them) are copied over it
+_old_meta = None
+if os.path.exists(os.path.join(dst, "meta.json")):
+    try:
+        _old_meta = json.load(open(os.path.join(dst, "meta.json")))
+    except Exception:
+        _old_meta = None
 for f in os.listdir(out):
     p = os.path.join(out, f)
     if os.path.isfile(p) and os.path.getsize(p) < 400000 and not f.endswith(".txt") and not f.endswith(".log"):
         shutil.copyfile(p, os.path.join(dst, f))
 rep = res.pop("first_replay", None)
 # keep what earlier runs recorded about this seed (strengthening notes, first-try result)
-old_p = os.path.join(dst, "meta.json")
-if os.path.exists(old_p):
+if _old_meta is not None:
     try:
-        old = json.load(open(old_p))
+        old = _old_meta
         for k in ("strengthened", "first_try_caught", "kind", "obsolete", "refactor_note", "ported"):
             if k in old and k not in meta:
                 meta[k] = old[k]
